@@ -45,7 +45,11 @@ WANTED = [("sbdfstring.c", "sbdf_convert_utf8_to_iso88591"), ("sbdfstring.c", "s
           # structs and arrays of pointers (the cell heap): metadata lists, objects, slices
           ("metadata.c", "sbdf_md_create"), ("metadata.c", "sbdf_md_set_immutable"), ("metadata.c", "sbdf_md_cnt"), ("metadata.c", "sbdf_md_exists"),
           ("object.c", "sbdf_obj_destroy"), ("object.c", "sbdf_obj_eq"), ("valuearray.c", "sbdf_va_row_cnt"), ("valuearray.c", "sbdf_va_destroy"),
-          ("columnslice.c", "sbdf_cs_create"), ("columnslice.c", "sbdf_cs_row_cnt"), ("columnslice.c", "sbdf_cs_get_property")]
+          ("columnslice.c", "sbdf_cs_create"), ("columnslice.c", "sbdf_cs_row_cnt"), ("columnslice.c", "sbdf_cs_get_property"),
+          # releasing containers; unlinking a metadata entry
+          ("metadata.c", "sbdf_md_remove"), ("metadata.c", "sbdf_md_destroy"),
+          ("columnslice.c", "sbdf_cs_destroy_all"), ("columnslice.c", "sbdf_cs_destroy"),
+          ("tableslice.c", "sbdf_ts_create"), ("tableslice.c", "sbdf_ts_destroy"), ("tablemetadata.c", "sbdf_tm_destroy")]
 CALLABLE = set(w[1] for w in WANTED if len(w) == 2) | {"sbdf_swap"}
 
 
@@ -741,6 +745,7 @@ def main():
     cache = {}
     notes = []
     translated = []
+    results = []
     for w in WANTED:
         fname, fn = w[0], w[1]
         cfg = tuple(w[2]) if len(w) > 2 else ()
@@ -766,13 +771,30 @@ def main():
             b = stmt(body, scope, declared)
             if "EDeref" in b and ("EReadByte" in b): raise Untranslatable("the input is used both as memory and as a stream")
             locs = [x for x in sorted(declared) if x not in params] + sorted(EXTRA_LOCALS) + sorted(OUTPARAMS)
-            translated.append((fn, pname))
-            lines.append("Definition %s : func :=\n  {| fparams := [%s];\n     flocals := [%s];\n     fbody := %s |}."
-                         % (pname, "; ".join('"%s"' % p for p in params), "; ".join('"%s"' % p for p in locs), b))
-            lines.append("")
+            results.append([fn, pname, "Definition %s : func :=\n  {| fparams := [%s];\n     flocals := [%s];\n     fbody := %s |}."
+                         % (pname, "; ".join('"%s"' % p for p in params), "; ".join('"%s"' % p for p in locs), b), None])
         except Untranslatable as ex:
-            notes.append("%s: %s" % (pname, ex))
-            lines.append("(* %s could not be translated: %s *)" % (pname, ex)); lines.append("")
+            results.append([fn, pname, None, str(ex)])
+    # a function that calls one that could not be translated cannot run either
+    import re as _re
+    changed = True
+    while changed:
+        changed = False
+        ok = set(r[0] for r in results if r[2] is not None)
+        for r in results:
+            if r[2] is None: continue
+            for g in _re.findall(r'\(SCall [^"]*(?:"[^"]*"[^"]*)?"(sbdf_\w+)"', r[2]):
+                pass
+            callees = set(_re.findall(r'"(sbdf_\w+)" \[', r[2]))
+            bad = [g for g in callees if g not in ok]
+            if bad:
+                r[2] = None; r[3] = "calls %s, which could not be translated" % bad[0]; changed = True
+    for fn, pname, text_, err in results:
+        if text_ is not None:
+            translated.append((fn, pname)); lines.append(text_); lines.append("")
+        else:
+            notes.append("%s: %s" % (pname, err))
+            lines.append("(* %s could not be translated: %s *)" % (pname, err)); lines.append("")
     # the function table for calls between translated functions (by C name)
     lines.append("Definition prog_env (g : string) : option func :=")
     for fn, pname in translated:
